@@ -268,7 +268,8 @@ type pointSet struct {
 	small    []*npoint // ±kG, k = 1..64 (index 2(k-1) is +kG, 2(k-1)+1 is -kG)
 	extreme  []*npoint
 	random   []*npoint
-	all      []*npoint
+	all      []*npoint // inf + small + extreme + random
+	sparse   []*npoint // coordinates with few set bits: first abscissa >= 2^k for every k, ordinates 2^k (not part of all)
 	nonX     []*big.Int // abscissae (in [0,p)) that belong to no point
 	smallXok bool       // an extreme point with x+p < 2^256 exists
 	smallYok bool       // an extreme point with y+p < 2^256 exists
@@ -276,7 +277,7 @@ type pointSet struct {
 
 // buildPoints constructs the deterministic point set; nrand random multiples of G are
 // derived from the seed (independent of shard and case number).
-func buildPoints(x *mon.Ctx, nrand int) *pointSet {
+func buildPoints(x *mon.Ctx, nrand int, sparse bool) *pointSet {
 	ps := &pointSet{inf: &npoint{name: "inf", kind: "inf", p: ec.Infinity, k: new(big.Int)}}
 	acc := ec.Infinity
 	for k := int64(1); k <= 64; k++ {
@@ -329,6 +330,33 @@ func buildPoints(x *mon.Ctx, nrand int) *pointSet {
 	for _, s := range []*big.Int{new(big.Int), pow2(64), pow2(128), sub(ec.P, pow2(32)), pow2(255)} {
 		if v := searchNonX(s); v != nil {
 			ps.nonX = append(ps.nonX, v)
+		}
+	}
+	// sparse coordinates: a single set bit walks through every position of every limb
+	for k := 0; sparse && k < 256; k++ {
+		xv := searchX(pow2(k), 1)
+		if xv == nil {
+			x.HarnessError("no abscissa found within 512 steps of 2^%d", k)
+		}
+		pt, _ := liftX(xv, uint(k&1))
+		if !ec.OnCurve(pt.X, pt.Y) {
+			x.HarnessError("sparse point search produced an off-curve point")
+		}
+		ps.sparse = append(ps.sparse, &npoint{name: fmt.Sprintf("first x>=2^%d", k), kind: "sparse-x", p: pt})
+	}
+	for _, k := range []int{2, 3, 4, 5, 6, 7, 8, 16, 31, 32, 33, 63, 64, 65, 95, 96, 127, 128, 159, 160, 191, 192, 223} {
+		if !sparse {
+			break
+		}
+		if xv := uniqueXForY(pow2(k)); xv != nil {
+			pt := ec.Point{X: xv, Y: pow2(k)}
+			if !ec.OnCurve(pt.X, pt.Y) {
+				x.HarnessError("sparse ordinate search produced an off-curve point")
+			}
+			if k&1 == 1 {
+				pt = ec.Neg(pt)
+			}
+			ps.sparse = append(ps.sparse, &npoint{name: fmt.Sprintf("y=+-2^%d", k), kind: "sparse-y", p: pt})
 		}
 	}
 	ps.all = append(ps.all, ps.inf)
